@@ -19,14 +19,23 @@ TRUSTED_NUMERIC = [
 
 class Unit:
     def __init__(self, cls, src, spec, defines=(), header='masa_internal.h', select=None, skip=('init_var',),
-                 replace=None, frame_ok=None, timeout=None, tag='', key_suffix='.contract', sample='uniform', arg_box=None):
+                 replace=None, frame_ok=None, timeout=None, tag='', key_suffix='.contract', sample='uniform', arg_box=None, ghost_capture=None, extra_cbmc=(),
+                 extractor=None, replay_target=None, render_select=None, loop_contracts=False, fixed_args=None):
         self.cls, self.src, self.spec, self.defines, self.header = cls, src, spec, list(defines), header
         self.select = select          # regex on member-function name: which functions this property covers
         self.skip = skip
         self.replace = replace or {}  # cname -> [callee cnames replaced by their contract]
         self.timeout = timeout
+        self.ghost_capture = ghost_capture
+        self.extra_cbmc = list(extra_cbmc)
+        self.render_select = render_select     # regex: only these member functions are rendered into the unit (others dropped)
+        self.loop_contracts = loop_contracts
+        self.fixed_args = fixed_args or {}     # parameter name -> constant used by the proof harness (e.g. the moment order k)
         self.sample, self.arg_box = sample, (arg_box or {})   # native sampling: 'uniform' in [-2,2] or 'defaults' (init_var values x (1 +- 30%))
         self.tag, self.key_suffix = tag, key_suffix   # pinned "as-coded" characterisations of known findings use another key
+        self.extractor = extractor          # optional callable(unit): sets unit.decl (xtract.ClassDecl) and unit.funcs ([xtract.Func]) instead of
+                                            # xtract.extract_class (sources that are not `MASA::cls<Scalar>::f` definitions, e.g. nsctpl.hpp); unit.dir exists
+        self.replay_target = replay_target  # optional callable(unit, func) -> (class template, method expression, extra C++ text) for replay_real
         self.decl = None
         self.funcs = []
         self.dir = None
@@ -37,12 +46,14 @@ def contracts_in_spec(spec_path):
     return set(re.findall(r'^\s*#\s*define\s+CONTRACT_(\w+__\w+)\b', txt, re.M))
 
 
-def harness_text(f, unit_file='unit.c'):
+def harness_text(f, unit_file='unit.c', fixed=None):
     decls = []
     call = []
     for t, n, k in f.args:
         if k == 'funcptr':
             call.append('0')
+        elif fixed and n in fixed:
+            call.append(str(fixed[n]))
         else:
             decls.append('%s a_%s;' % (t, n))
             call.append('a_' + n)
@@ -53,7 +64,12 @@ def harness_text(f, unit_file='unit.c'):
 def prepare_unit(u, base):
     u.dir = os.path.join(base, u.cls + u.tag)
     os.makedirs(u.dir, exist_ok=True)
-    u.decl, u.funcs = xtract.extract_class(os.path.join(SRC, u.src), os.path.join(SRC, u.header), u.cls, skip=u.skip)
+    if getattr(u, 'extractor', None):
+        u.extractor(u)
+    else:
+        u.decl, u.funcs = xtract.extract_class(os.path.join(SRC, u.src), os.path.join(SRC, u.header), u.cls, skip=u.skip, ghost_capture=getattr(u, 'ghost_capture', None))
+    if getattr(u, 'render_select', None):
+        u.funcs = [f_ for f_ in u.funcs if re.search(u.render_select, f_.name)]
     text = xtract.render_unit(u.cls, u.decl, u.funcs, u.spec, prelude='real.h', defines=u.defines)
     open(os.path.join(u.dir, 'unit.c'), 'w').write(text)
     return u
@@ -66,7 +82,7 @@ def native_unit_text(u, under):
         for n in cbs)
     o = [pre + xtract.render_unit(u.cls, u.decl, u.funcs, u.spec, prelude='native.h', defines=u.defines)]
     o.append('#undef REQ\n#undef ENS_EQ\n#undef ENS\n#undef FRAME')
-    o.append('#define REQ(e) if (!(e)) return 0;\n#define ENS_EQ(e) *want = (e);\n#define ENS(e)\n#define FRAME(...)')
+    o.append('static int vf_has_want;\n#define REQ(e) if (!(e)) return 0;\n#define ENS_EQ(e) *want = (e); vf_has_want = 1;\n#define ENS(e)\n#define FRAME(...)')
     for f in under:
         params = xtract.sig(f)
         params = '' if params == 'void' else params + ', '
@@ -86,7 +102,7 @@ def native_unit_text(u, under):
         o.append('static void randomize(void) { for (struct mem *m = mems; m->n; m++) *m->p = 0; %s(); for (struct mem *m = mems; m->n; m++) *m->p *= (Sc)(1.0 + 0.3 * (2.0 * drand48() - 1.0)); pi = PI = acosl(-1.0L); }' % init_fn)
     else:
       o.append('''static void randomize(void) { for (struct mem *m = mems; m->n; m++) *m->p = rndp(); pi = PI = acosl(-1.0L);%s }''' % (
-        ''.join(' %s_size = 1 + (int)(drand48() * 6); for (int i = 0; i < VF_VECMAX; i++) %s[i] = rnd();' % (v, v) for v in u.decl.vectors)))
+        ''.join(' %s_size = 1 + (int)(drand48() * 6); %s_size_r = %s_size; for (int i = 0; i < VF_VECMAX; i++) %s[i] = rnd();' % (v, v, v, v) for v in u.decl.vectors)))
     o.append('static void dump(void) { printf("\\"members\\": {"); for (struct mem *m = mems; m->n; m++) printf("%s\\"%s\\": \\"%.21Lg\\"", m == mems ? "" : ", ", m->n, *m->p); printf("}"); }')
     o.append('int main(int argc, char **argv) {\n  const char *fn = argv[1]; long seed = atol(argv[2]); long N = atol(argv[3]); srand48(seed); long tried = 0, evald = 0;')
     for f in under:
@@ -100,14 +116,19 @@ def native_unit_text(u, under):
                 o.append('      Sc a_%s = (Sc)(%r + (%r - %r) * drand48());' % (n, lo_, hi_, lo_))
             elif k == 'scalar':
                 o.append('      Sc a_%s = rnd();' % n)
+            elif k == 'int' and n in getattr(u, 'arg_box', {}):
+                lo_, hi_ = u.arg_box[n]
+                o.append('      int a_%s = %d + (int)(drand48() * %d);' % (n, lo_, hi_ - lo_ + 1))
             elif k == 'int':
                 o.append('      int a_%s = (int)(drand48() * 9) - 2;' % n)
             else:
                 o.append('      int a_%s = 0;' % n)
             names.append('a_' + n)
         al = ', '.join(names)
-        o.append('      Sc want = 0; tried++; if (!twin_%s(%s&want)) continue;' % (f.cname, al + (', ' if al else '')))
+        o.append('      Sc want = 0; tried++; vf_has_want = 0; if (!twin_%s(%s&want)) continue;' % (f.cname, al + (', ' if al else '')))
+        o.append('      if (!vf_has_want) { printf("{\\"found\\": false, \\"tried\\": 0, \\"evaluated\\": 0, \\"error\\": \\"contract has no ENS_EQ clause: nothing to compare natively\\"}\\n"); return 0; }')
         o.append('      Sc got = %s(%s); if (vf_assume_failed) continue; evald++;' % (f.cname, al))
+        o.append('      twin_%s(%s&want);   /* the postcondition is evaluated in the post-state (cached members are set by the call) */' % (f.cname, al + (', ' if al else '')))
         o.append('      if (!isfinite(got) || !isfinite(want)) continue;   /* overflow/NaN at an extreme sample is not a counterexample */')
         o.append('      Sc sc_ = fabsl(got) > fabsl(want) ? fabsl(got) : fabsl(want); if (sc_ < 1) sc_ = 1;')
         o.append('      if (!(fabsl(got - want) <= 1e-9L * sc_)) { printf("{\\"found\\": true, \\"function\\": \\"%s\\", "); dump();' % f.cname)
@@ -137,6 +158,7 @@ def native_search(u, under, f, seed, N):
 
 REPLAY_TMPL = r'''
 #include <masa_internal.h>
+#include <%(header)s>
 #include <cstdio>
 #include <cstdlib>
 namespace MASA { void masa_exit(int c) { std::printf("masa_exit(%%d)\n", c); std::exit(c); } }
@@ -166,7 +188,7 @@ def replay_args(f, args):
 def replay_real(cls, src, method, members, args, workdir, extra='', header='masa_internal.h'):
     """evaluate the REAL C++ member function (from /repo's working tree) at a concrete input -> long double as str"""
     sets = '\n'.join('  o.set_var("%s", %sL);' % (k, _ld(v)) for k, v in members.items())
-    prog = REPLAY_TMPL % {'cls': cls, 'sets': sets, 'method': method, 'args': ', '.join(_arg(a) for a in args), 'extra': extra}
+    prog = REPLAY_TMPL % {'cls': cls, 'sets': sets, 'method': method, 'args': ', '.join(_arg(a) for a in args), 'extra': extra, 'header': header}
     os.makedirs(workdir, exist_ok=True)
     open(os.path.join(workdir, 'replay.cpp'), 'w').write(prog)
     srcs = [os.path.join(SRC, src)]
@@ -181,6 +203,13 @@ def replay_real(cls, src, method, members, args, workdir, extra='', header='masa
     if not m:
         return None, 'replay run failed: ' + out[-500:]
     return m.group(1), out
+
+
+def replay_target(u, f):
+    """-> (class template to instantiate, method expression, extra C++ text): the unit's own choice or the class/method themselves"""
+    if getattr(u, 'replay_target', None):
+        return u.replay_target(u, f)
+    return u.cls, f.name, ''
 
 
 def _ld(v):
@@ -219,6 +248,7 @@ def run_numeric(prop, units, tier, seed, trusted_extra=(), design_ref='', lemmas
     jobs = []
     under_all, not_under, extraction = [], [], {}
     notes = []
+    all_have, all_funcs = {}, {}
     try:
         for u in units:
             prepare_unit(u, base)
@@ -236,13 +266,16 @@ def run_numeric(prop, units, tier, seed, trusted_extra=(), design_ref='', lemmas
                     notes.append('%s: %s' % (f.cname, nt))
                 for k, v in f.hits.items():
                     extraction[k] = extraction.get(k, 0) + v
-            missing = [c for c in have if c.startswith(u.cls + '__') and c not in {f.cname for f in u.funcs}]
-            if missing:
-                raise ExtractionBreak('contract(s) without a function in /repo: %s (renamed or removed?)' % ', '.join(missing))
+            all_have.setdefault(u.spec, set()).update(c for c in have if c.startswith(u.cls + '__'))
+            all_funcs.setdefault(u.spec, set()).update(f.cname for f in u.funcs)
             for f in u.under:
                 hf = os.path.join(u.dir, 'h_%s.c' % f.cname)
-                open(hf, 'w').write(harness_text(f))
+                open(hf, 'w').write(harness_text(f, fixed=getattr(u, 'fixed_args', None)))
                 jobs.append((u, f, hf))
+        for sp_, hv_ in all_have.items():
+            missing = sorted(hv_ - all_funcs.get(sp_, set()))
+            if missing and not os.environ.get('VF_ONLY'):
+                raise ExtractionBreak('contract(s) in %s without a function in /repo: %s (renamed or removed?)' % (sp_, ', '.join(missing)))
     except ExtractionBreak as e:
         rep.undecide('extraction break: %s' % e)
         rc = rep.finish()
@@ -263,8 +296,10 @@ def run_numeric(prop, units, tier, seed, trusted_extra=(), design_ref='', lemmas
         u, f, hf = job
         if getattr(f, 'is_lemma', False):
             return job, cbmc_job(u.dir, f.cname, hf, f.cname, enforce=None, smt=True, timeout=tmo, own_prefixes=(f.cname,))
+        kf_ = (prop, f.cname + getattr(u, 'key_suffix', '.contract')) in rep.known
+        # an obligation recorded as a known finding is expected to fail: a short proof attempt, then straight to the concrete reproduction
         return job, cbmc_job(u.dir, f.cname, hf, 'h_' + f.cname, enforce=f.cname, replace=u.replace.get(f.cname, ()), smt=True,
-                             timeout=u.timeout or tmo)
+                             timeout=15 if kf_ else (u.timeout or tmo), extra_cbmc=getattr(u, 'extra_cbmc', ()), loop_contracts=getattr(u, 'loop_contracts', False))
 
     results = []
     with ThreadPoolExecutor(max_workers=NCPU) as ex:
@@ -299,7 +334,7 @@ def run_numeric(prop, units, tier, seed, trusted_extra=(), design_ref='', lemmas
         if getattr(f, 'is_lemma', False):
             rep.undecide('lemma %s not discharged (%s %s)' % (f.cname, r.status, r.detail))
             continue
-        if r.status == 'undecided':
+        if r.status == 'undecided' and (prop, key) not in rep.known:
             # the all-obligations query was not decided: ask for every obligation on its own (frame / assigns obligations are small and
             # get a definite answer even when the functional postcondition does not)
             r2 = cbmc_job(u.dir, f.cname + '.split', hf, 'h_' + f.cname, enforce=f.cname, replace=u.replace.get(f.cname, ()), smt=True,
@@ -314,12 +349,15 @@ def run_numeric(prop, units, tier, seed, trusted_extra=(), design_ref='', lemmas
                 continue
         # not discharged: search for a concrete input, then replay on the real class
         found = native_search(u, u.under + getattr(u, 'bounded_fns', []), f, seed, N)
-        payload = {'function': f.cname, 'class': u.cls, 'source': u.src, 'method': f.name, 'status': r.status,
+        rcls, rmeth, rextra = replay_target(u, f)
+        payload = {'function': f.cname, 'class': rcls, 'source': u.src, 'header': u.header, 'method': rmeth, 'status': r.status,
                    'failed_obligations': r.failed, 'detail': r.detail, 'verifier_output': r.log[-8000:], 'checker_cmd': r.cmd,
                    'native_search': found}
+        if rextra:
+            payload['replay_extra'] = rextra
         if found.get('found'):
-            real, rlog = replay_real(u.cls, u.src, f.name, found['members'], replay_args(f, found['args']),
-                                     os.path.join(u.dir, 'replay_' + f.cname), header=u.header, extra=CB_EXTRA)
+            real, rlog = replay_real(rcls, u.src, rmeth, found['members'], replay_args(f, found['args']),
+                                     os.path.join(u.dir, 'replay_' + f.cname), header=u.header, extra=CB_EXTRA + rextra)
             payload['replay_args'] = replay_args(f, found['args'])
             payload['real_value'] = real
             payload['spec_value'] = found['want']
@@ -352,9 +390,10 @@ def run_numeric(prop, units, tier, seed, trusted_extra=(), design_ref='', lemmas
             found = native_search(u, u.under + u.bounded_fns, f, seed, N)
             key = f.cname + getattr(u, 'key_suffix', '.contract')
             if found.get('found'):
-                real, rlog = replay_real(u.cls, u.src, f.name, found['members'], replay_args(f, found['args']),
-                                         os.path.join(u.dir, 'replay_' + f.cname), header=u.header, extra=CB_EXTRA)
-                payload = {'function': f.cname, 'class': u.cls, 'source': u.src, 'method': f.name, 'status': 'bounded stand-in found a counterexample',
+                rcls, rmeth, rextra = replay_target(u, f)
+                real, rlog = replay_real(rcls, u.src, rmeth, found['members'], replay_args(f, found['args']),
+                                         os.path.join(u.dir, 'replay_' + f.cname), header=u.header, extra=CB_EXTRA + rextra)
+                payload = {'function': f.cname, 'class': rcls, 'source': u.src, 'header': u.header, 'method': rmeth, 'replay_extra': rextra, 'status': 'bounded stand-in found a counterexample',
                            'failed_obligations': [f.cname + '.bounded'], 'native_search': found, 'real_value': real, 'spec_value': found['want'],
                            'replay_args': replay_args(f, found['args']), 'replay_log': rlog[-1500:]}
                 if real is not None and differs(real, found['want']):
@@ -414,7 +453,7 @@ def replay_file(path):
         print((p.get('verifier_output') or '')[-3000:])
         return EXIT_VIOLATION
     wd = scratch('replay')
-    real, log = replay_real(p['class'], p['source'], p['method'], ns['members'], p.get('replay_args', ns['args']), wd, extra=CB_EXTRA)
+    real, log = replay_real(p['class'], p['source'], p['method'], ns['members'], p.get('replay_args', ns['args']), wd, extra=CB_EXTRA + p.get('replay_extra', ''), header=p.get('header', 'masa_internal.h'))
     print('function %s::%s  real=%s  spec=%s' % (p['class'], p['method'], real, ns['want']))
     if real is None:
         print(log)
